@@ -172,13 +172,18 @@ let check_c07 (b : block) : verdict list =
         (match find "panic", find "r", find "ch", split_on "|" args with
          | None, Some res, Some ch, [[k; _]; a] ->
            let chs = parse_choices ch in
-           let ((s', r), ok) = Model.uniform_random_sampling d (Conv.zlist_of_ints (ints a)) (Conv.z_of_int (int_of_string k)) chs !st in
+           let za = Conv.zlist_of_ints (ints a) and zk = Conv.z_of_int (int_of_string k) in
+           (* the hypothesis of C07_valid, evaluated on the real run's stream (before the state moves on) *)
+           let contract = Mdl.C07Defs.urs_choices_okb d za zk chs !st in
+           let ((s', r), ok) = Model.uniform_random_sampling d za zk chs !st in
            st := s';
            let mr = Option.map (List.map Conv.ints_of_zlist) r in
            let ir = parse_cfgs res in
            bump "sample_replays";
            if mr <> ir then out := Diff ("sample-replay", Printf.sprintf "[sample %s] model {%s} impl {%s}" (String.concat " " args) (show_cfgs mr) (show_cfgs ir)) :: !out;
            if not ok then out := Diff ("sample-choices", Printf.sprintf "[sample %s] the recorded choice stream does not fit the model's traversal" (String.concat " " args)) :: !out;
+           bump "sample_contract_checks";
+           if ok && not contract then out := Diff ("sample-contract", Printf.sprintf "[sample %s] the recorded choice stream violates the contract of the random primitives (choices_ok)" (String.concat " " args)) :: !out;
            List.iter (function
                | Model.Perm p -> if not (Model.is_perm p) then out := Diff ("sample-choices", "a recorded shuffle is not a permutation") :: !out
                | Model.Split _ -> ()) chs
